@@ -188,8 +188,18 @@ pub fn bare_name_without_dots() -> impl Parser<StringView, Output = BareName, Er
 ///
 /// Usage: label declaration (but also used internally in the module).
 pub fn identifier() -> impl Parser<StringView, Output = Token, Error = ParserError> {
-    any_token_of!(TokenType::Identifier)
+    // the maximum length applies to names, not to every run of letters
+    // (which can also be part of a string literal or a comment)
+    any_token_of!(TokenType::Identifier).and_then(|token| {
+        if token.as_str().len() > MAX_LENGTH {
+            Err(ParserError::IdentifierTooLong)
+        } else {
+            Ok(token)
+        }
+    })
 }
+
+const MAX_LENGTH: usize = 40;
 
 /// Parses a type qualifier character.
 pub fn type_qualifier() -> impl Parser<StringView, Output = Token, Error = ParserError> {
